@@ -9,6 +9,7 @@
 // Output: one JSON line per configuration.
 #include <cstdlib>
 #include <fstream>
+#include <memory>
 #include <limits>
 #include <set>
 #include <sstream>
@@ -16,6 +17,7 @@
 #include <bxdecay0/bb_utils.h>
 #include <bxdecay0/decay0_generator.h>
 #include <bxdecay0/event.h>
+#include <bxdecay0/i_decay_generator.h>
 
 #include "diffcore_port.h"
 #include "steer.h"
@@ -49,7 +51,9 @@ static void run(const Spec & sp, uint64_t seed, long n_iid, int n_grid, bool hos
   Stats st;
   st.name = lab;
   Tape tape;
-  bxdecay0::decay0_generator gen;
+  // owned and released through the interface type, as an application holding a collection of generators does
+  std::unique_ptr<bxdecay0::i_decay_generator> owner(new bxdecay0::decay0_generator);
+  bxdecay0::decay0_generator & gen = static_cast<bxdecay0::decay0_generator &>(*owner);
   std::string init_error;
   try {
     if (verif_debug_flags()) gen.set_debug(true);
